@@ -125,9 +125,13 @@ std::string gen_hostile(uint64_t r, const std::string& token, ExpReq& e)
   case 2:
   {
     std::string v = badChunk[(r >> 8) % 10];
-    e.hostileWhat = "chunk size line '" + v + "'";
+    // in half of the cases ordinary chunks come first, so that the bad size meets a decoder that already holds data
+    std::string lead;
+    static const char* leads[] = {"", "", "2\r\nab\r\n", "10\r\n0123456789abcdef\r\n1\r\nz\r\n"};
+    lead = leads[(r >> 16) % 4];
+    e.hostileWhat = std::string("chunk size line '") + v + "'" + (lead.empty() ? "" : " after valid chunks");
     // the chunk data is followed by what looks like a proper terminator so that a guessing parser finds an end
-    return head + "Transfer-Encoding: chunked\r\n\r\n" + v + "\r\n" + body + "\r\n0\r\n\r\n";
+    return head + "Transfer-Encoding: chunked\r\n\r\n" + lead + v + "\r\n" + body + "\r\n0\r\n\r\n";
   }
   default:
     e.hostileWhat = "conflicting Content-Length list '12, 5'";
@@ -471,7 +475,15 @@ RespPlan gen_response(uint64_t r, int idx, size_t maxBody, bool hostile)
     {
     case 0: p.hostileWhat = "two Content-Length fields (5 and 12)"; w += "Content-Length: 5\r\nContent-Length: 12\r\n\r\n" + b12; break;
     case 1: { std::string v = badCl[(r >> 8) % 10]; p.hostileWhat = "Content-Length: '" + v + "'"; w += "Content-Length: " + v + "\r\n\r\n" + b12; break; }
-    case 2: { std::string v = badChunk[(r >> 8) % 10]; p.hostileWhat = "chunk size line '" + v + "'"; w += "Transfer-Encoding: chunked\r\n\r\n" + v + "\r\n" + b12 + "\r\n0\r\n\r\n"; break; }
+    case 2:
+    {
+      std::string v = badChunk[(r >> 8) % 10];
+      static const char* leads[] = {"", "", "2\r\nab\r\n", "10\r\n0123456789abcdef\r\n1\r\nz\r\n"};
+      std::string lead = leads[(r >> 16) % 4];
+      p.hostileWhat = "chunk size line '" + v + "'" + (lead.empty() ? "" : " after valid chunks");
+      w += "Transfer-Encoding: chunked\r\n\r\n" + lead + v + "\r\n" + b12 + "\r\n0\r\n\r\n";
+      break;
+    }
     case 3: p.hostileWhat = "Content-Length list '12, 5'"; w += "Content-Length: 12, 5\r\n\r\n" + b12; break;
     default: p.hostileWhat = "chunk data not followed by CRLF"; w += "Transfer-Encoding: chunked\r\n\r\nc\r\n" + b12 + "XX0\r\n\r\n"; break;
     }
